@@ -85,10 +85,10 @@ func caller(tr vegeta.Targeter) {
 }
 
 type c15Call struct {
-	actor     int
-	inv, ret  int
-	done      bool
-	idx       int // target index, or -1 for ErrNoTargets
+	actor    int
+	inv, ret int
+	done     bool
+	idx      int // target index, or -1 for ErrNoTargets
 }
 
 func runTargeters(tt *testing.T, tape *simrt.Tape, keep bool) (out simrt.Outcome) {
